@@ -3,6 +3,8 @@ import ReplicatProofs.Lemmas.RetryLoop
 Helper lemmas for C12: what one attempt does (per adapter and direction) under a configuration that rewinds to 0, catches
 everything, unlinks the temp file and truncates the sink; and what the policy answers for each class of exception.
 -/
+set_option linter.unusedSimpArgs false
+set_option linter.unusedVariables false
 namespace Replicat.Retry
 
 /-! ## soundness conditions on a configuration (all decidable; `Properties/C12.lean` proves them for `cfgOf` by `decide`) -/
